@@ -280,3 +280,25 @@ _EXTRA9 = {
 }
 for _k, _v in _EXTRA9.items():
     PROPS[_k]['text'] = PROPS[_k]['text'].rstrip() + _v
+
+_EXTRA10 = {
+ 'C01': ' The operator substituted by operator_table keeps the Porter-Duff factors (C01-R15 = C09-R1).',
+ 'C02': ' Dither and every other non-flag field the general path tests before choosing the narrow pipeline reach the flags (C02-R24, defect F36 - fixed); tiled rotation copies are executed symbolically along every path (C02-R25); coordinate offsets of the convolution readers use the header fields of their own axis (C02-R13).',
+ 'C03': ' The direct trapezoid route is excluded under an effective source clip, by partial evaluation (C03-R5, defect F37 - fixed).',
+ 'C04': ' An image without pixels is never repeated: under width (height) = 0 and repeat != NONE the gate has no path to success (C04-R13, defect F39 - fixed).',
+ 'C05': ' When the result is operand k and nothing but "operand k has two rectangles" is known, the old rectangle array is always set aside (C05-R1, second clause).',
+ 'C06': ' Clamped rectangles are re-validated on every path (C06-R12, defect F38 - fixed).',
+ 'C07': ' Clamped rectangles are re-validated on every path (C07-R16, defect F38 - fixed); a clamp is a constant stored under a comparison with that constant (C07-R11).',
+ 'C08': ' Nearest scanlines wrap in a loop (C08-R17); tiled rotation copies hand every tile the source rows of its columns (C08-R18).',
+ 'C09': ' The solid pseudo-format is not substituted under a filter whose fetcher reads filter_params (C09-R9, defect F35 - fixed).',
+ 'C10': ' Scanline readers carry no loaded value round their pixel loop (C10-R16).',
+ 'C11': ' The rounding-up idiom x + 0xffff is guarded (C11-R15, defect F6 - fixed).',
+ 'C12': ' The a1 rounding offset is added in 64 bits (C12-R15, defect F34 - fixed); the extents helper returns trapezoid coordinates in both branches (C12-R16: the tree does not - known finding F40).',
+ 'C13': ' Sums in the gradient scanline functions combine equal homogeneous degrees outside the w == 1 branch (C13-R13).',
+ 'C14': ' The derived format code follows the filter (C14-R10, defect F35 - fixed) and the flags follow the dither setting (C14-R11, defect F36 - fixed).',
+ 'C17': ' A glyph copied into an image of its own format keeps its palette (C17-R9, defect F33 - fixed).',
+ 'C18': ' Stores outside the two passes of the table writer go through the rewound pointer (C18-R2); header comparisons on the separable path of the setter stay within one axis (C18-R5).',
+ 'C19': ' The shortcut branches also require dither == NONE (C19-R13, defect F36 - fixed).',
+}
+for _k, _v in _EXTRA10.items():
+    PROPS[_k]['text'] = PROPS[_k]['text'].rstrip() + _v
